@@ -179,12 +179,18 @@ def debug_twins(streams, names=None):
     """`streams` plus, for each one named in `names` (all when None), the same stream run on the debug-assertions build of its
     binary: same operations, same model answers, same judge."""
     import copy
-    for st in streams:
-        yield st
-        if isinstance(st, Stream) and (names is None or st.name in names) and "/" not in st.binary:
-            tw = copy.copy(st)
-            tw.name = st.name + " (debug-assertions build)"; tw.binary = "dbg/" + st.binary
-            yield tw
+    def gen():
+        for st in streams:
+            yield st
+            if isinstance(st, Stream) and (names is None or st.name in names) and st.binary in DBG_BINARIES:
+                tw = copy.copy(st)
+                tw.name = st.name + "-debug-assertions-build"; tw.binary = "dbg/" + st.binary
+                tw.twin_of = st                 # same model operations: the model's answers are taken from the first run
+                yield tw
+    return gen() if hasattr(streams, "send") else list(gen())
+
+
+DBG_BINARIES = ("hcore", "hio", "hserde")
 
 
 def harness_bin(name):
@@ -292,8 +298,14 @@ def eval_stream(st, ops=None, model_ops=None, spec_ops=None):
     model_ops = st.model_ops if model_ops is None else model_ops
     spec_ops = st.spec_ops if spec_ops is None else spec_ops
     impl = run_lines(harness_bin(st.binary), ops, st.impl_args)
-    model = run_lines(MCDRV, model_ops)
-    spec = run_lines(MCDRV, spec_ops) if spec_ops else [None] * len(ops)
+    src = getattr(st, "twin_of", None)
+    if src is not None and getattr(src, "_model_raw", None) is not None and model_ops is src.model_ops and spec_ops is src.spec_ops and len(src._model_raw[0]) == len(ops):
+        model, spec = list(src._model_raw[0]), list(src._model_raw[1])
+    else:
+        model = run_lines(MCDRV, model_ops)
+        spec = run_lines(MCDRV, spec_ops) if spec_ops else [None] * len(ops)
+        if ops is st.ops:
+            st._model_raw = (list(model), list(spec))
     if st.canon:
         impl = [st.canon(o, x) for o, x in zip(ops, impl)]
         model = [st.canon(o, x) for o, x in zip(ops, model)]
@@ -424,6 +436,11 @@ def check(pid, tier, seed, replay=None):
 
     # ---- 2. harness
     pkgs = sorted({p for p in getattr(mod, "PACKAGES", ["hcore"])})
+    twins = getattr(mod, "DEBUG_TWINS", None)
+    if twins:
+        # the streams are run on two builds of the harness binaries: optimised without debug assertions (what `cargo build --release`
+        # gives a user) and the same with debug assertions on (what `debug_assert!` / `cfg!(debug_assertions)` in /repo do in `cargo test` / `cargo run`)
+        pkgs = sorted(set(pkgs) | {p + "@dbg" for p in pkgs if p in DBG_BINARIES})
     if hasattr(mod, "prepare"):
         try:
             mod.prepare(seed, tier)
@@ -475,6 +492,8 @@ def check(pid, tier, seed, replay=None):
     total = 0; nontriv = set(); kinds = {}; samples = []; stream_stats = {}
     disagreements = 0
     streams = mod.streams(rng, tier)
+    if twins:
+        streams = debug_twins(streams, None if twins is True else twins)
     if rp is not None and rp.get("kind") in ("proof-obligation", "harness-build-failure"):
         streams = []        # nothing to re-run: the theorem audit / harness build above is the replay
     found = rp is None
